@@ -311,9 +311,9 @@ def c19_c(ctx):
             if mm is not None and mm['r'][0] == 'name':
                 cnt = mm['r'][1]
         if cnt is not None:
-            incs = [n for n in ast.walk(wl) if isinstance(n, ast.AugAssign) and
-                    isinstance(n.op, ast.Add) and isinstance(n.target, ast.Name) and
-                    n.target.id == cnt and ex.raw(n.value) == ('const', 1)]
+            from .base import increment_of
+            incs = [n for n in ast.walk(wl) if isinstance(n, ast.stmt) and
+                    increment_of(n, by=1) is not None and increment_of(n, by=1)[0] == cnt]
             resets = [n for n in own_nodes(ls.node) if isinstance(n, ast.Assign) and
                       isinstance(n.targets[0], ast.Name) and n.targets[0].id == cnt and
                       ex.raw(n.value) == ('const', 0)]
@@ -429,8 +429,9 @@ def c19_d(ctx):
         exf = ctx.ex(f)
         ifs = [n for n in own_nodes(f.node) if isinstance(n, ast.If)]
         ok = False
-        counts = [n for n in own_nodes(f.node) if isinstance(n, ast.AugAssign) and
-                  isinstance(n.op, ast.Add) and exf.raw(n.value) == ('const', 1)]
+        from .base import increment_of
+        counts = [n for n in own_nodes(f.node) if isinstance(n, ast.stmt) and
+                  increment_of(n, by=1) is not None]
         for cnt in counts:
             # the atomic conditions under which the count is incremented (nested ifs and a
             # conjunction are the same thing)
@@ -449,12 +450,10 @@ def c19_d(ctx):
                 if len(ind) == 1 and len(reg) == 1 and len(parts) == 2 and \
                         match(ind[0], pattern('self.funcs[_i](theta) <= self.eps_cutoff'))['i'] \
                         == match(reg[0], pattern('self.regions[_i].contains(theta)'))['i']:
-                    ok = any(isinstance(s, ast.AugAssign) and exf.raw(s.value) == ('const', 1)
-                             for s in n.body)
+                    ok = any(increment_of(s, by=1) is not None for s in n.body)
             else:
                 if len(ind) == 1 and len(parts) == 1:
-                    ok = any(isinstance(s, ast.AugAssign) and exf.raw(s.value) == ('const', 1)
-                             for s in n.body)
+                    ok = any(increment_of(s, by=1) is not None for s in n.body)
         ctx.check(ok, f, 'counted condition',
                   ('region contains and ' if need_region else '') + 'distance <= cut-off',
                   'the counted condition in {} is not the expected conjunction for the same '
